@@ -1342,8 +1342,11 @@ impl InterfaceInner {
                         // Save the number of bytes we will send now.
                         frag.sent_bytes = first_frag_ip_len;
 
-                        // Emit the IP header to the buffer.
-                        emit_ip(&ip_repr, &mut frag.buffer);
+                        // Emit the IP header and the payload to the buffer. Only the part of the
+                        // buffer the packet occupies is handed out: payload emitters that
+                        // checksum their whole buffer (ICMPv4) must not see bytes left over
+                        // from a previous, longer packet.
+                        emit_ip(&ip_repr, &mut frag.buffer[..total_ip_len]);
 
                         let mut ipv4_packet = Ipv4Packet::new_unchecked(&mut frag.buffer[..]);
                         frag.ipv4.ident = ipv4_id;
